@@ -125,7 +125,7 @@ Definition ref_env_value (os : env) (secrets dotenv : list env) (v : pstr) : opt
   | None => match last_def secrets v with Some x => Some x | None => get os v end
   end.
 
-(* region of the open defect F22: non-empty prefix and a tuple of candidate names *)
+(* region of the open defect F37: non-empty prefix and a tuple of candidate names *)
 Definition safe_field (prefix : pstr) (f : field) : bool :=
   negb (negb (is_nil prefix) && match f_explicit f with ExTuple (_ :: _) => true | _ => false end).
 
